@@ -165,3 +165,371 @@ Definition send_frames (bufs : list bytes) : option (list (list bytes)) :=
   | Some (fs, _, _, _) => Some (map f_vec fs)
   end.
 
+(* ------------------------------------------------------------------------------------------------ *)
+(** * Receiver *)
+
+Record rst := { r_buf : bytes; r_fo : Z; r_fs : Z; r_cs : Z; r_wake : bool }.
+Definition rst0 : rst := {| r_buf := []; r_fo := 0; r_fs := 0; r_cs := 0; r_wake := false |}.
+
+(* nice_component_compute_rfc4571_headroom: guint arithmetic *)
+Definition headroom (s : rst) : Z := w32 (lenZ (r_buf s) - r_fo s).
+
+Definition rd16 (b : bytes) (off : Z) : option Z :=
+  match mreadn b off 2 with
+  | Some [hi; lo] => Some (hi * 256 + lo)
+  | _ => None
+  end.
+
+Record imsg := { m_bufs : list bytes; m_len : Z }.
+Record iter := { it_m : nat; it_b : nat; it_o : Z }.
+Definition iter0 : iter := {| it_m := O; it_b := O; it_o := 0 |}.
+
+(** the [for] loop of append_buffer_to_input_messages over the buffers from iter->buffer on.
+    Result: those buffers after the copies, iter->buffer, iter->offset, the data not copied. *)
+Fixpoint app_loop (rest : list bytes) (ib : nat) (io : Z) (data : bytes)
+  : option (list bytes * nat * Z * bytes) :=
+  match rest with
+  | [] => Some ([], ib, io, data)
+  | v :: vs =>
+      let l := Z.min (lenZ data) (w64 (lenZ v - io)) in
+      match mwrite v io (takeZ l data) with
+      | None => None
+      | Some v' =>
+        let data' := dropZ l data in
+        if lenZ data' =? 0 then Some (v' :: vs, ib, io + l, data')
+        else match app_loop vs (S ib) 0 data' with
+             | None => None
+             | Some (vs', ib', io', d') => Some (v' :: vs', ib', io', d')
+             end
+      end
+  end.
+
+Fixpoint set_nth {A} (l : list A) (n : nat) (x : A) : list A :=
+  match l, n with
+  | [], _ => []
+  | _ :: t, O => x :: t
+  | h :: t, S k => h :: set_nth t k x
+  end.
+
+(* nice_input_message_iter_get_message_capacity *)
+Definition capacity (msgs : list imsg) (it : iter) : option Z :=
+  if Nat.eqb (it_m it) (length msgs) then Some 0 else
+  match nth_error msgs (it_m it) with
+  | None => None
+  | Some m => Some (w64 (sumlen (skipn (it_b it) (m_bufs m)) - it_o it))
+  end.
+
+Definition append_buffer (bs_mode : bool) (msgs : list imsg) (it : iter) (data : bytes)
+  : option (list imsg * iter * Z) :=
+  match nth_error msgs (it_m it) with
+  | None => None                          (* messages[iter->message] lies outside the array *)
+  | Some m =>
+    let len0 := if Nat.eqb (it_b it) 0 && (it_o it =? 0) then 0 else m_len m in
+    match app_loop (skipn (it_b it) (m_bufs m)) (it_b it) (it_o it) data with
+    | None => None
+    | Some (rest', ib', io', lft) =>
+      let copied := lenZ data - lenZ lft in
+      let m' := {| m_bufs := firstn (it_b it) (m_bufs m) ++ rest'; m_len := len0 + copied |} in
+      let msgs' := set_nth msgs (it_m it) m' in
+      let it1 := {| it_m := it_m it; it_b := ib'; it_o := io' |} in
+      match (if bs_mode then capacity msgs' it1 else Some 0) with
+      | None => None
+      | Some cap =>
+        let it2 := if negb bs_mode || (cap =? 0)
+                   then {| it_m := S (it_m it); it_b := O; it_o := 0 |} else it1 in
+        Some (msgs', it2, copied)
+      end
+    end
+  end.
+
+(** agent_consume_next_rfc4571_chunk; [tgt = None] is the call with messages == NULL *)
+Definition next_frame (s : rst) : option rst :=
+  let fo := w32 (r_fo s + r_fs s) in
+  let h := w32 (lenZ (r_buf s) - fo) in
+  if 2 <=? h then
+    match rd16 (r_buf s) fo with
+    | None => None
+    | Some v => Some {| r_buf := r_buf s; r_fo := fo; r_fs := 2 + v; r_cs := 0; r_wake := (2 + v <=? h) |}
+    end
+  else Some {| r_buf := r_buf s; r_fo := fo; r_fs := 0; r_cs := 0; r_wake := false |}.
+
+Definition consume (bs_mode : bool) (s : rst) (tgt : option (list imsg * iter))
+  : option (rst * option (list imsg * iter)) :=
+  match tgt with
+  | None => match next_frame s with None => None | Some s' => Some (s', None) end
+  | Some (msgs, it) =>
+    let unc := w64 (r_fs s - 2 - r_cs s) in
+    match mreadn (r_buf s) (r_fo s + r_fs s - unc) unc with
+    | None => None
+    | Some data =>
+      match append_buffer bs_mode msgs it data with
+      | None => None
+      | Some (msgs', it', copied) =>
+        if (copied =? unc) || negb bs_mode then
+          match next_frame s with None => None | Some s' => Some (s', Some (msgs', it')) end
+        else
+          Some ({| r_buf := r_buf s; r_fo := r_fo s; r_fs := r_fs s; r_cs := w32 (r_cs s + copied); r_wake := true |},
+                Some (msgs', it'))
+      end
+    end
+  end.
+
+Inductive kev := KRead (cap : Z) | KEmpty | KClosed.
+Record kern := { pend : bytes; script : list kev }.
+
+Inductive rstatus := RSuccess | ROob | RWouldBlock | RError.
+
+Section Demux.
+Variable bs_mode : bool.            (* agent->bytestream_tcp *)
+Variable ctl : bytes -> bool.       (* the frame is consumed as ICE control (STUN) *)
+Variable gate : bool.               (* nice_component_verify_remote_candidate (component, from, nicesock) *)
+
+(** the TCP_BSD branch of agent_recv_message_unlocked for one call with the caller's message [m], in three
+    phases: the read into the reassembly buffer, the decoding of the length field, the hand-out. *)
+Definition missing (s : rst) : bool := (r_fs s =? 0) || (headroom s <? r_fs s).
+
+(* agent.c:4680-4738; result: sockret, state, headroom, kernel *)
+Definition read_phase (s : rst) (k : kern) : option (Z * rst * Z * kern) :=
+  let h := headroom s in
+  if missing s then
+    match script k with
+    | [] => Some (0, s, h, k)
+    | KEmpty :: sc => Some (0, s, h, {| pend := pend k; script := sc |})
+    | KClosed :: sc => Some (-1, s, h, {| pend := pend k; script := sc |})
+    | KRead cap :: sc =>
+        if lenZ (pend k) =? 0 then Some (0, s, h, {| pend := pend k; script := sc |}) else
+        if BUFSZ <? h then None else
+        match mreadn (r_buf s) (r_fo s) h with        (* memmove of the cached bytes to the front *)
+        | None => None
+        | Some keep =>
+          let d := takeZ (Z.min cap (BUFSZ - h)) (pend k) in
+          let s1 := {| r_buf := keep ++ d; r_fo := 0; r_fs := r_fs s; r_cs := r_cs s; r_wake := r_wake s |} in
+          Some ((if lenZ d =? 0 then 0 else 1), s1, w32 (h + lenZ d),
+                {| pend := dropZ (Z.min cap (BUFSZ - h)) (pend k); script := sc |})
+        end
+    end
+  else Some (0, s, h, k).
+
+(* agent.c:4740-4745 *)
+Definition len_phase (was_missing : bool) (s1 : rst) (h1 : Z) : option rst :=
+  if was_missing && (r_fs s1 =? 0) && (2 <=? h1) then
+    match rd16 (r_buf s1) (r_fo s1) with
+    | None => None
+    | Some v => Some {| r_buf := r_buf s1; r_fo := r_fo s1; r_fs := 2 + v; r_cs := r_cs s1; r_wake := r_wake s1 |}
+    end
+  else Some s1.
+
+(* agent.c:4748-4927 *)
+Definition deliver_phase (s2 : rst) (h1 sockret : Z) (k1 : kern) (m : imsg) : option (rstatus * rst * kern * imsg) :=
+  if negb (r_fs s2 =? 0) && (r_fs s2 <=? h1) then
+    (* have_whole_frame *)
+    match mreadn (r_buf s2) (r_fo s2 + 2) (r_fs s2 - 2) with
+    | None => None
+    | Some payload =>
+      if (lenZ payload =? 0) || ctl payload || negb gate then
+        match consume bs_mode s2 None with
+        | None => None
+        | Some (s3, _) => Some (ROob, s3, k1, m)
+        end
+      else
+        match consume bs_mode s2 (Some ([m], iter0)) with
+        | Some (s3, Some ([m'], _)) => Some (RSuccess, s3, k1, m')
+        | _ => None
+        end
+    end
+  else if sockret <? 0 then Some (RError, s2, k1, m)
+  else Some (RWouldBlock, s2, k1, m).
+
+Definition recv_unlocked (s : rst) (k : kern) (m : imsg) : option (rstatus * rst * kern * imsg) :=
+  match read_phase s k with
+  | None => None
+  | Some (sockret, s1, h1, k1) =>
+    match len_phase (missing s) s1 h1 with
+    | None => None
+    | Some s2 => deliver_phase s2 h1 sockret k1 m
+    end
+  end.
+
+(** agent_try_consume_next_rfc4571_chunk *)
+Definition try_consume (s : rst) (msgs : list imsg) (it : iter) : option (option (rst * list imsg * iter)) :=
+  if r_fs s =? 0 then Some None
+  else if headroom s <? r_fs s then Some None
+  else match consume bs_mode s (Some (msgs, it)) with
+       | Some (s', Some (msgs', it')) => Some (Some (s', msgs', it'))
+       | _ => None
+       end.
+
+(** what the application sees *)
+Definition valid_bytes (m : imsg) : bytes := takeZ (m_len m) (concat (m_bufs m)).
+
+(** component_io_cb, branch "has_io_callback, agent not reliable" (agent.c:6404-6443): one dispatch.
+    The scratch message is component->recv_buffer. *)
+Definition scratch : imsg := {| m_bufs := [repZ 0 (Z.to_nat RECVBUF)]; m_len := 0 |}.
+
+Fixpoint cb_dispatch (fuel : nat) (s : rst) (k : kern) : option (rst * kern * list bytes * bool) :=
+  match fuel with
+  | O => None
+  | S f =>
+    match recv_unlocked s k scratch with
+    | None => None
+    | Some (RWouldBlock, s', k', _) => Some (s', k', [], false)
+    | Some (RError, s', k', _) => Some (s', k', [], true)
+    | Some (RSuccess, s', k', m') =>
+        match cb_dispatch f s' k' with
+        | None => None
+        | Some (s'', k'', ds, e) =>
+            Some (s'', k'', (if 0 <? m_len m' then [valid_bytes m'] else []) ++ ds, e)
+        end
+    | Some (ROob, s', k', _) => cb_dispatch f s' k'
+    end
+  end.
+
+Definition dispatch_fuel (s : rst) (k : kern) : nat :=
+  S (length (script k)) + Z.to_nat (lenZ (r_buf s) + lenZ (pend k)).
+
+(** [n] dispatches in a row (the socket source is level triggered: more dispatches than needed change nothing) *)
+Fixpoint cb_session (n : nat) (s : rst) (k : kern) : option (rst * kern * list bytes * bool) :=
+  match n with
+  | O => Some (s, k, [], false)
+  | S n' =>
+    match cb_dispatch (dispatch_fuel s k) s k with
+    | None => None
+    | Some (s', k', ds, true) => Some (s', k', ds, true)
+    | Some (s', k', ds, false) =>
+      match cb_session n' s' k' with
+      | None => None
+      | Some (s'', k'', ds', e) => Some (s'', k'', ds ++ ds', e)
+      end
+    end
+  end.
+
+(** component_io_cb, branch "agent reliable, socket reliable" (agent.c:6302-6403), with the I/O callback
+    attached: one dispatch.  Each callback emission is one element of the result. *)
+Definition advance_bufs (bufs : list bytes) (n : Z) : list bytes :=
+  (* agent.c:6356-6375: drop what the last chunk filled *)
+  (fix go (bufs : list bytes) (n : Z) : list bytes :=
+     match bufs with
+     | [] => []
+     | b :: t =>
+        if 0 <? n then
+          let consumed := Z.min n (lenZ b) in
+          if 0 <? lenZ b - consumed then dropZ consumed b :: t
+          else go t (n - lenZ b)
+        else bufs
+     end) bufs n.
+
+(* the do { } while (n_bufs > 0) loop; [acc] = bytes received into msg so far *)
+Fixpoint rel_inner (fuel : nat) (s : rst) (k : kern) (bufs : list bytes) (acc : bytes)
+  : option (rst * kern * bytes * rstatus) :=
+  match fuel with
+  | O => None
+  | S f =>
+    match recv_unlocked s k {| m_bufs := bufs; m_len := 0 |} with
+    | None => None
+    | Some (RWouldBlock, s', k', _) => Some (s', k', acc, RWouldBlock)
+    | Some (RError, s', k', _) => Some (s', k', acc, RError)
+    | Some (ROob, s', k', _) =>
+        if Nat.ltb 0 (length bufs) then rel_inner f s' k' bufs acc else Some (s', k', acc, ROob)
+    | Some (RSuccess, s', k', m') =>
+        let acc' := acc ++ valid_bytes m' in
+        if negb bs_mode then Some (s', k', acc', RSuccess)
+        else
+          let bufs' := advance_bufs bufs (m_len m') in
+          if Nat.ltb 0 (length bufs') then rel_inner f s' k' bufs' acc' else Some (s', k', acc', RSuccess)
+    end
+  end.
+
+Fixpoint rel_dispatch (fuel : nat) (s : rst) (k : kern) : option (rst * kern * list bytes * bool) :=
+  match fuel with
+  | O => None
+  | S f =>
+    match rel_inner (dispatch_fuel s k) s k (m_bufs scratch) [] with
+    | None => None
+    | Some (s', k', acc, st) =>
+      let out := if 0 <? lenZ acc then [acc] else [] in
+      match st with
+      | RWouldBlock => Some (s', k', out, false)
+      | RError => Some (s', k', out, true)
+      | _ => match rel_dispatch f s' k' with
+             | None => None
+             | Some (s'', k'', ds, e) => Some (s'', k'', out ++ ds, e)
+             end
+      end
+    end
+  end.
+
+Fixpoint rel_session (n : nat) (s : rst) (k : kern) : option (rst * kern * list bytes * bool) :=
+  match n with
+  | O => Some (s, k, [], false)
+  | S n' =>
+    match rel_dispatch (dispatch_fuel s k) s k with
+    | None => None
+    | Some (s', k', ds, true) => Some (s', k', ds, true)
+    | Some (s', k', ds, false) =>
+      match rel_session n' s' k' with
+      | None => None
+      | Some (s'', k'', ds', e) => Some (s'', k'', ds ++ ds', e)
+      end
+    end
+  end.
+
+(** nice_agent_recv_messages_nonblocking on a non-reliable agent (component_io_cb branch agent.c:6444-6485).
+    [msgs] are the caller's messages (each at least 1280 bytes of buffer: smaller ones are replaced by the API),
+    the iterator starts at 0. *)
+Definition at_end (msgs : list imsg) (it : iter) : bool :=
+  Nat.eqb (it_m it) (length msgs) && Nat.eqb (it_b it) 0 && (it_o it =? 0).
+Definition n_valid (it : iter) : Z :=
+  if Nat.eqb (it_b it) 0 && (it_o it =? 0) then Z.of_nat (it_m it) else Z.of_nat (it_m it) + 1.
+
+Fixpoint rm_dispatch (fuel : nat) (s : rst) (k : kern) (msgs : list imsg) (im : nat)
+  : option (rst * kern * list imsg * nat * bool) :=
+  match fuel with
+  | O => None
+  | S f =>
+    if Nat.eqb im (length msgs) then Some (s, k, msgs, im, false) else
+    match nth_error msgs im with
+    | None => None
+    | Some m =>
+      match recv_unlocked s k m with
+      | None => None
+      | Some (RWouldBlock, s', k', _) => Some (s', k', msgs, im, false)
+      | Some (RError, s', k', _) => Some (s', k', msgs, im, true)
+      | Some (ROob, s', k', _) => rm_dispatch f s' k' msgs im
+      | Some (RSuccess, s', k', m') => rm_dispatch f s' k' (set_nth msgs im m') (S im)
+      end
+    end
+  end.
+
+(** one API call: the cached-frame short cut, else main-context iterations (one dispatch each while the
+    socket is readable) until the messages are full or an iteration changes nothing.
+    Result: state, kernel, messages, return value (-1 = would block / error). *)
+Fixpoint rm_iterate (n : nat) (s : rst) (k : kern) (msgs : list imsg) (im : nat)
+  : option (rst * kern * list imsg * nat) :=
+  match n with
+  | O => Some (s, k, msgs, im)
+  | S n' =>
+    if Nat.eqb im (length msgs) then Some (s, k, msgs, im) else
+    match script k with
+    | [] => Some (s, k, msgs, im)                 (* the socket is not readable: no dispatch *)
+    | _ =>
+      match rm_dispatch (S (dispatch_fuel s k)) s k msgs im with
+      | None => None
+      | Some (s', k', msgs', im', err) =>
+        if err || Nat.eqb im' im then Some (s', k', msgs', im') else rm_iterate n' s' k' msgs' im'
+      end
+    end
+  end.
+
+Definition recv_messages_call (s : rst) (k : kern) (msgs : list imsg)
+  : option (rst * kern * list imsg * Z) :=
+  match try_consume s msgs iter0 with
+  | None => None
+  | Some (Some (s', msgs', it')) => Some (s', k, msgs', n_valid it')
+  | Some None =>
+    match rm_iterate (S (length (script k))) s k msgs O with
+    | None => None
+    | Some (s', k', msgs', im) => Some (s', k', msgs', if Nat.eqb im 0 then -1 else Z.of_nat im)
+    end
+  end.
+
+End Demux.
